@@ -1114,11 +1114,10 @@ func (interp *Interpreter) cfg(root *node, sc *scope, importPath, pkgName string
 			}
 			if t.cat != funcT && t.cat != genericT && t.cat != structT {
 				// Not a generic instantiation: the operand must support indexing.
-				rt := t.TypeOf()
-				switch rt.Kind() {
+				switch typeKind(t) {
 				case reflect.Array, reflect.Map, reflect.Slice, reflect.String:
 				case reflect.Ptr:
-					if rt.Elem().Kind() != reflect.Array {
+					if t.TypeOf().Elem().Kind() != reflect.Array {
 						err = n.cfgErrorf("invalid operation: cannot index %s", t.id())
 					}
 				default:
